@@ -14,8 +14,7 @@ def main():
         if not shutil.which(tool):
             print('missing tool', tool)
             ok = False
-    for d in sorted(glob.glob(os.path.join(runner.VERIF, 'specs', '*', 'spec.py'))):
-        g = os.path.basename(os.path.dirname(d))
+    for g in runner.enabled_groups():
         try:
             spec = runner.load_spec(g)
             text, spans = runner.generate(spec)
